@@ -132,6 +132,19 @@ pub fn run(args: &Args) {
     // the shipped char.def defines every class for the MeCab provider (the test one only DEFAULT and ALPHA)
     std::fs::copy(format!("{}/resources/char.def", repo()), dir.join("char.def")).unwrap();
     let mut rng = Rng::new(args.seed);
+    // two more user dictionaries which introduce the same user-defined parts of speech as each other and as the
+    // `userPOS: allow` providers of the "full" configuration (POS tables are merged when the dictionary is put together)
+    let shared_pos = "名詞,普通名詞,REGEX,*,*,*";
+    let u2 = compile_user(&system, &format!("ゆず,6,6,2816,ゆず,{0},ユズ,ゆず,*,A,*,*,*,*\nだいだい,8,8,2000,だいだい,被子植物門,双子葉植物綱,ムクロジ目,ミカン科,ミカン属,ダイダイ,ダイダイ,だいだい,*,A,*,*,*,*\n", shared_pos));
+    let u3 = compile_user(&system, &format!("れもん,6,6,2816,れもん,被子植物門,双子葉植物綱,ムクロジ目,ミカン科,ミカン属,レモン,レモン,れもん,*,A,*,*,*,*\nらいむ,8,8,2100,らいむ,{0},ライム,らいむ,*,A,*,*,*,*\nぽんかん,8,8,2100,ぽんかん,柑橘,新種,*,*,*,*,ポンカン,ぽんかん,*,A,*,*,*,*\n", shared_pos));
+    let extra_users: Vec<Vec<u8>> = match (u2, u3) {
+        (Ok(a), Ok(b)) => vec![a, b],
+        (a, b) => {
+            let id = sink.case_rust_only(json!({"kind": "c03-load", "config": "extra user dictionaries"}), false);
+            sink.fail(id, &format!("extra user dictionaries did not compile: {:?} {:?}", a.err(), b.err()), "");
+            vec![]
+        }
+    };
 
     let replay_case: Option<Value> = args.replay.as_ref().map(|p| serde_json::from_str::<Value>(&std::fs::read_to_string(p).unwrap()).unwrap()["case"].clone());
 
@@ -141,7 +154,9 @@ pub fn run(args: &Args) {
                 continue;
             }
         }
-        let dict = match load_dictionary(&dir, system.clone(), vec![user.clone()], &cfg) {
+        let mut users = vec![user.clone()];
+        users.extend(extra_users.iter().cloned());
+        let dict = match load_dictionary(&dir, system.clone(), users, &cfg) {
             Ok(d) => d,
             Err(e) => {
                 let id = sink.case_rust_only(json!({"kind": "c03-load", "config": cname}), false);
@@ -156,6 +171,9 @@ pub fn run(args: &Args) {
         } else {
             for t in nasty() {
                 texts.push(("hostile".into(), t));
+            }
+            for t in ["ゆずとれもんとらいむ", "ぽんかんだいだいすだちかぼす", "abc-12ゆずらいむぽんかん東京府"] {
+                texts.push(("hostile".into(), t.to_string()));
             }
             for _ in 0..args.n(150, 3000) {
                 texts.push(("random".into(), rand_text(&mut rng)));
@@ -232,12 +250,100 @@ pub fn run(args: &Args) {
             }
         }
     }
+    if replay_case.is_none() || replay_case.as_ref().map(|c| c["kind"] == "reuse-session").unwrap_or(false) {
+        reuse_sessions(&mut sink, &mut rng, args, &dir, &system, &user, &extra_users, replay_case.as_ref());
+    }
     let _ = std::fs::remove_dir_all(&dir);
     if replay_case.is_none() {
         generated_configurations(&mut sink, &mut rng, args);
     }
     debug_mode_runs(&mut sink, args);
     sink.finish();
+}
+
+/// every accessor of every morpheme of a list (the list may be one that earlier analyses filled)
+fn touch_all(ml: &MorphemeList<&JapaneseDictionary>) -> Result<String, String> {
+    let mut concat = String::new();
+    let mut sum = 0usize;
+    for m in ml.iter() {
+        concat.push_str(&m.surface());
+        sum += m.part_of_speech().len() + m.dictionary_form().len() + m.normalized_form().len() + m.reading_form().len();
+        sum += m.is_oov() as usize + m.word_id().as_raw() as usize + (m.dictionary_id() + 1) as usize + m.synonym_group_ids().len();
+        sum += m.begin() + m.end() + m.begin_c() + m.end_c() + (m.total_cost() as i64).unsigned_abs() as usize + m.part_of_speech_id() as usize;
+        sum += format!("{:?}", m).len();
+        for sm in [Mode::A, Mode::B] {
+            let sub = m.split(sm).map_err(|e| format!("split: {:?}", e))?;
+            for x in sub.iter() {
+                sum += x.surface().len() + x.end_c();
+            }
+        }
+    }
+    std::hint::black_box(sum);
+    Ok(concat)
+}
+
+/// One tokenizer and ONE result list reused over a sequence of inputs (empty, blank, ordinary, rejected ones anywhere):
+/// after every step every accessor of every morpheme of the list is called.
+fn reuse_sessions(sink: &mut Sink, rng: &mut Rng, args: &Args, dir: &std::path::Path, system: &[u8], user: &[u8], extra: &[Vec<u8>], replay: Option<&Value>) {
+    let pool: Vec<String> = {
+        let mut v: Vec<String> = vec!["".into(), "".into(), " ".into(), "\u{3099}".into(), "東京都に行った。".into(), "京都".into(), "ゆずとれもん".into(), "123,456.7円".into(),
+                                      "アイスクリーム".into(), "a".into(), "\u{fdfa}".repeat(3000), "a".repeat(MAX_LENGTH + 1), "ｶﾞｶﾞｶﾞ".into(), "高輪ゲートウェイ駅(たかなわ)".into()];
+        for _ in 0..6 {
+            v.push(rand_text(rng));
+        }
+        v
+    };
+    for (cname, cfg) in configs() {
+        if cname == "cost-extremes" {
+            continue;
+        }
+        let mut users = vec![user.to_vec()];
+        users.extend(extra.iter().cloned());
+        let dict = match load_dictionary(dir, system.to_vec(), users, &cfg) {
+            Ok(d) => d,
+            Err(_) => continue, // reported by the main loop
+        };
+        let nsess = if replay.is_some() { 1 } else { args.n(25, 300) };
+        for _ in 0..nsess {
+            let steps: Vec<(String, String)> = match replay {
+                Some(rc) => {
+                    if rc["config"].as_str() != Some(cname) {
+                        break;
+                    }
+                    rc["steps"].as_array().unwrap().iter().map(|x| (x[0].as_str().unwrap().to_string(), x[1].as_str().unwrap().to_string())).collect()
+                }
+                None => (0..3 + rng.below(6)).map(|_| ((*rng.pick(&["A", "B", "C"][..])).to_string(), rng.pick(&pool[..]).clone())).collect(),
+            };
+            let shown: Vec<(String, String)> = steps.iter().map(|(m, t)| (m.clone(), if t.len() > 60 { format!("{}…({} bytes)", t.chars().take(8).collect::<String>(), t.len()) } else { t.clone() })).collect();
+            let desc = if steps.iter().all(|(_, t)| t.len() < 2000) { json!({"kind": "reuse-session", "config": cname, "steps": steps}) } else { json!({"kind": "reuse-session", "config": cname, "steps_desc": shown}) };
+            sink.tag("reuse-session");
+            let id = sink.case_rust_only(desc, true);
+            let r = catch(|| {
+                let mut tok = StatefulTokenizer::new(&dict, Mode::C);
+                let mut ml = MorphemeList::empty(&dict);
+                for (k, (mode, text)) in steps.iter().enumerate() {
+                    tok.set_mode(match mode.as_str() { "A" => Mode::A, "B" => Mode::B, _ => Mode::C });
+                    tok.reset().push_str(text);
+                    match tok.do_tokenize() {
+                        Err(SudachiError::InputTooLong(_, _)) => continue,
+                        Err(e) => return Err(format!("step {}: error {:?} within the limits", k, e)),
+                        Ok(_) => {}
+                    }
+                    ml.collect_results(&mut tok).map_err(|e| format!("step {}: collect_results {:?}", k, e))?;
+                    let c = touch_all(&ml).map_err(|e| format!("step {}: {}", k, e))?;
+                    if &c != text {
+                        return Err(format!("step {}: the reused list's surfaces concatenate to {:?}, not to the input {:?}", k, c.chars().take(40).collect::<String>(), text.chars().take(40).collect::<String>()));
+                    }
+                }
+                Ok(())
+            });
+            match r {
+                Err(p) => sink.fail(id, &format!("reused tokenizer + result list: analysis or an accessor panicked ({}) in the session {:?} [{}]", p, shown, cname), ""),
+                Ok(Err(e)) => sink.fail(id, &format!("reused tokenizer + result list: {} in the session {:?} [{}]", e, shown, cname), ""),
+                Ok(Ok(())) => {}
+            }
+        }
+    }
 }
 
 /// "any configuration that loaded successfully": dictionaries with n x m connection matrices (non-square too) and OOV
